@@ -26,6 +26,13 @@ func init() {
 			{ID: "R7", Desc: "data methods operate on the table named by the request (T-FLOW)", Run: c18R7},
 			{ID: "R8", Desc: "hygiene: no unsafe/cgo/linkname/reflective calls/build tags", Run: c18R8},
 			{ID: "R9", Desc: "no address of a loop-carried variable escapes from inside its loop (every escape would alias the same variable)", Run: c18R9},
+			{ID: "R10", Desc: "operations on an existing table do not change the declared type of a defined attribute (= C13.R7)", Run: func(e *Engine) {
+				before := len(e.obs)
+				c13R7(e)
+				for i := before; i < len(e.obs); i++ {
+					e.obs[i].Rule = "R10"
+				}
+			}},
 		},
 	})
 }
